@@ -3,7 +3,8 @@ from dataclasses import dataclass, field
 from typing import TYPE_CHECKING, Dict, List, Optional, Tuple
 
 from .encoding import Encoding, get_string_encoding
-from .exceptions import DecodeError, odxassert, odxraise, strict_mode
+from . import exceptions
+from .exceptions import DecodeError, odxassert, odxraise
 from .odxtypes import AtomicOdxType, DataType, ParameterValue
 
 try:
@@ -119,7 +120,8 @@ class DecodeState:
         # ... string types, ...
         elif base_data_type in (DataType.A_UTF8STRING, DataType.A_ASCIISTRING,
                                 DataType.A_UNICODE2STRING):
-            text_errors = 'strict' if strict_mode else 'replace'
+            # note that the strict mode can be changed at runtime
+            text_errors = 'strict' if exceptions.strict_mode else 'replace'
             str_encoding = get_string_encoding(base_data_type, base_type_encoding,
                                                is_highlow_byte_order)
             if str_encoding is not None:
